@@ -583,14 +583,14 @@ func init() {
 				emit(Case{Line: genWild(rng, 2+rng.Intn(20)), Kind: "wild"})
 			}
 		},
-		Impl:   pqImpl,
-		Oracle: pqOracle,
+		Impl:       pqImpl,
+		Oracle:     pqOracle,
 		FindingKey: func(line, out, clause string) string { return clause },
 		Nontrivial: func(line, out string) bool {
 			// crosses a packet boundary or hits a short read / panic
 			return strings.Count(line, " a:")+strings.Count(line, " w:") >= 2 || strings.Contains(out, "short") || strings.Contains(out, "panic")
 		},
-		Rule: "op sequences over the real tds.PacketQueue: reader discipline (flat-slice oracle), writer discipline (layout oracle), undisciplined ops (model correspondence only, incl. panics) and all sequences up to a fixed depth over a 13-op alphabet at packet size 10; non-trivial = at least two packets involved, or a short read, or a panic",
+		Rule:        "op sequences over the real tds.PacketQueue: reader discipline (flat-slice oracle), writer discipline (layout oracle), undisciplined ops (model correspondence only, incl. panics) and all sequences up to a fixed depth over a 13-op alphabet at packet size 10; non-trivial = at least two packets involved, or a short read, or a panic",
 		Assumptions: []string{"positions passed to SetPosition are non-negative", "packet sizes 9..65535"},
 	})
 }
